@@ -1,4 +1,5 @@
 import ArcSwapModel.Inv.AcctNode
+import ArcSwapModel.Inv.FaultMono
 
 /-!
 # The ledger over whole executions, with the local well-formedness proved
@@ -179,5 +180,42 @@ example : EnvRun 1 4 1 (State.initial {} (fun t => if t = 0 then [("new h0 5", .
     simp only [State.initial, ↓reduceIte, List.cons.injEq, Prod.mk.injEq] at hp
     obtain ⟨⟨_, rfl⟩, _⟩ := hp
     exact ⟨by show 0 < 4; decide, fun c h e => by cases e⟩
+
+/-- a fault-free end means a fault-free execution -/
+theorem run_fault_mono (st : State) (sched : List (Nat × Bool)) (h : (run st sched).sh.fault = none) :
+    st.sh.fault = none := by
+  induction sched generalizing st with
+  | nil => exact h
+  | cons x rest ih => obtain ⟨t, b⟩ := x; exact microStep_fault_mono st t b (ih _ h)
+
+/-- `EnvOK` without the no-fault clause -/
+structure EnvOK0 (K N : Nat) (st : State) (t : Nat) (b : Bool) : Prop where
+  regs : (st.th t).op.okR N st.sh
+  nodesBelow : (microStep st t b).1.sh.nNodes ≤ K
+  noEnv : NoEnv st.sh
+  noEnvAfter : NoEnv (microStep st t b).1.sh
+  room : ∀ v, (st.sh.heap (alloc st.sh v).2.1).cnt = 0
+  next : ∀ txt o rest, (st.th t).prog = (txt, o) :: rest → o.below N ∧ (∀ c h, o = .mk c h → st.sh.cells c = none)
+
+def EnvRun0 (K N T : Nat) : State → List (Nat × Bool) → Prop
+  | _, [] => True
+  | st, (t, b) :: rest => t < T ∧ EnvOK0 K N st t b ∧ EnvRun0 K N T (microStep st t b).1 rest
+
+theorem EnvRun.of_final {K N T : Nat} {st : State} (sched : List (Nat × Bool)) (he : EnvRun0 K N T st sched)
+    (hf : (run st sched).sh.fault = none) : EnvRun K N T st sched := by
+  induction sched generalizing st with
+  | nil => trivial
+  | cons x rest ih =>
+    obtain ⟨t, b⟩ := x
+    obtain ⟨ht, h1, hrest⟩ := he
+    have hf1 : (microStep st t b).1.sh.fault = none := run_fault_mono _ rest hf
+    exact ⟨ht, ⟨h1.regs, h1.nodesBelow, h1.noEnv, h1.noEnvAfter, h1.room, h1.next, hf1⟩, ih hrest hf⟩
+
+/-- **C02, the global sum, for executions that end without a fault.** -/
+theorem C02_ledger_final (K N T : Nat) (hK : 0 < K) (cfg : Cfg) (progs : Nat → List (String × Op))
+    (sched : List (Nat × Bool)) (he : EnvRun0 K N T (State.initial cfg progs) sched)
+    (hf : (run (State.initial cfg progs) sched).sh.fault = none) :
+    Ledger K N T (run (State.initial cfg progs) sched) :=
+  C02_ledger_env K N T hK cfg progs sched (EnvRun.of_final sched he hf)
 
 end M
